@@ -203,6 +203,9 @@ unsigned MessageBase::decode_group(GroupBase *grpbase, const unsigned short fnum
 				s_offset = grp->decode_group(grpbase, tv, from, s_offset, ignore);
 		}
 
+		if (grp->_fields.empty())	// nothing could be extracted (malformed element): no progress is possible
+			break;
+
 		const unsigned short missing(grp->_fp.find_missing());
 		if (missing)
 		{
